@@ -51,7 +51,7 @@ def check_case(case: Dict[str, Any], acc: Acc):
     from qce_circuit.structure.acquisition_indexing.kernel_repetition_code import RepetitionExperimentKernel
     from qce_circuit.structure.acquisition_indexing.intrf_stabilizer_index_kernel import StateKey
     rounds, heralded, reps = case["rounds"], case["heralded"], case["reps"]
-    data_names, anc_names = ID_SETS[case["ids"]]
+    data_names, anc_names = case.get("id_names") or ID_SETS[case["ids"]]
     data = [QubitIDObj(n) for n in data_names]
     anc = [QubitIDObj(n) for n in anc_names]
     wrap = {"experiment": case}
@@ -156,6 +156,14 @@ def check_case(case: Dict[str, Any], acc: Acc):
                                                                      dataset_size=reps * cycle)
     if est != reps:
         acc.finding("estimate/wrong", "estimate_experiment_repetitions does not invert size = repetitions x cycle length", wrap, {"estimate": est, "reps": reps, "cycle": cycle})
+    # description without calibration points: the cycle is the span of the repetition kernels only
+    cycle_nocal = kernels[-2].stop_index - kernels[0].start_index + 1
+    acc.count("estimate_checks_without_calibration")
+    est = RepetitionExperimentKernel.estimate_experiment_repetitions(rounds=rounds, heralded_initialization=heralded, qutrit_calibration_points=False,
+                                                                     dataset_size=reps * cycle_nocal)
+    if est != reps:
+        acc.finding("estimate/wrong-without-calibration", "estimate_experiment_repetitions (no calibration points) does not invert size = repetitions x cycle length", wrap,
+                    {"estimate": est, "reps": reps, "cycle": cycle_nocal})
     if cycle > 1:
         try:
             RepetitionExperimentKernel.estimate_experiment_repetitions(rounds=rounds, heralded_initialization=heralded, qutrit_calibration_points=True,
@@ -163,6 +171,14 @@ def check_case(case: Dict[str, Any], acc: Acc):
             acc.finding("estimate/accepts-bad-size", "estimate_experiment_repetitions accepts a dataset size that is not a multiple of the cycle length", wrap, None)
         except AssertionError:
             pass
+
+
+def random_ids(rng: random.Random):
+    """Arbitrary identifier sets: 1-5 data and 1-4 ancilla names from a mixed pool (device names, free strings, look-alikes)."""
+    pool = ["D1", "D2", "D3", "D4", "D5", "D6", "D7", "D8", "D9", "X1", "X2", "X3", "X4", "Z1", "Z2", "Z3", "Z4", "q0", "q1", "Q10", "a", "A", "data", "anc", "D10", "D11", ""]
+    names = rng.sample(pool, rng.randint(2, 9))
+    nd = rng.randint(1, min(5, len(names) - 1))
+    return [names[:nd], names[nd:nd + 4]]
 
 
 LARGE_ROUNDS = [0, 1, 3, 10 ** 6, 2 * 10 ** 6 + 1, 5 * 10 ** 8, 2 ** 31 - 3, 2 ** 31 + 5]
@@ -176,7 +192,7 @@ def check_large(case: Dict[str, Any], acc: Acc):
     from qce_circuit.structure.acquisition_indexing.kernel_repetition_code import RepetitionExperimentKernel
     from qce_circuit.structure.acquisition_indexing.intrf_stabilizer_index_kernel import StateKey
     rounds, heralded, reps = case["rounds"], case["heralded"], case["reps"]
-    data_names, anc_names = ID_SETS[case["ids"]]
+    data_names, anc_names = case.get("id_names") or ID_SETS[case["ids"]]
     data = [QubitIDObj(n) for n in data_names]
     anc = [QubitIDObj(n) for n in anc_names]
     wrap = {"experiment": dict(case, large=True)}
@@ -273,12 +289,16 @@ def run_shard(shard: Dict[str, Any]) -> Acc:
         for i in range(shard["n"]):
             length = rng.randint(1, 3)
             case = {"rounds": rng.sample(LARGE_ROUNDS, length), "heralded": rng.random() < 0.5, "reps": rng.choice(LARGE_REPS), "ids": rng.randrange(len(ID_SETS)), "large": True}
+            if rng.random() < 0.5:
+                case["id_names"] = random_ids(rng)
             acc.case(bp.phash(case), True, sample=case if i < 2 else None)
             common.guarded(acc, check_large, case, acc, case={"experiment": case})
         return acc
     for i in range(shard["n"]):
         length = rng.randint(1, 12)
         case = {"rounds": rng.sample(range(0, 60), length), "heralded": rng.random() < 0.5, "reps": rng.choice([1, 2, 3, 7]), "ids": rng.randrange(len(ID_SETS))}
+        if rng.random() < 0.5:
+            case["id_names"] = random_ids(rng)
         acc.case(bp.phash(case), len(case["rounds"]) >= 2, sample=None)
         common.guarded(acc, check_case, case, acc, case={"experiment": case})
     return acc
